@@ -302,7 +302,7 @@ func (srv *Srv) createPost(req *SrvReq) {
 func (srv *Srv) read(req *SrvReq) {
 	tc := req.Tc
 	fid := req.Fid
-	if tc.Count+IOHDRSZ > req.Conn.Msize {
+	if tc.Count > req.Conn.Msize-IOHDRSZ {
 		req.RespondError(Etoolarge)
 		return
 	}
@@ -353,6 +353,11 @@ func (srv *Srv) readPost(req *SrvReq) {
 func (srv *Srv) write(req *SrvReq) {
 	fid := req.Fid
 	tc := req.Tc
+	if tc.Count > req.Conn.Msize-IOHDRSZ {
+		req.RespondError(Etoolarge)
+		return
+	}
+
 	if (fid.Type & QTAUTH) != 0 {
 		tc := req.Tc
 		if op, ok := (req.Conn.Srv.ops).(AuthOps); ok {
@@ -371,11 +376,6 @@ func (srv *Srv) write(req *SrvReq) {
 
 	if !fid.opened || (fid.Type&QTDIR) != 0 || (fid.Omode&3) == OREAD {
 		req.RespondError(Ebaduse)
-		return
-	}
-
-	if tc.Count+IOHDRSZ > req.Conn.Msize {
-		req.RespondError(Etoolarge)
 		return
 	}
 
